@@ -63,10 +63,10 @@ def validate_exec_traces(ctx, execs, invs, name=None):
     cfg = ["SPECIFICATION TraceSpec", "CONSTANTS",
            f"  FixOrphanParent = {'TRUE' if VARIANT.get('FixOrphanParent') else 'FALSE'}",
            f"  FixBteBranch = {'TRUE' if VARIANT.get('FixBteBranch') else 'FALSE'}",
-           f"  FixEmpty = {'TRUE' if VARIANT.get('FixEmpty') else 'FALSE'}",
+           f"  FixEmpty = {'TRUE' if VARIANT.get('FixEmpty') else 'FALSE'}", "  ResetFirst = TRUE",
            "CONSTRAINT Progress", "CONSTRAINT Prune"] + [f"INVARIANT {i}" for i in invs] + ["POSTCONDITION Accepted", "CHECK_DEADLOCK FALSE"]
     bound = {"C09": {"OnDone", "Build", "ExReturn", "BodyStart"}, "C10": {"Ckpt", "BodyEnd", "ParentCkpt"},
-             "C07": {"OnDone", "ExReturn", "Resubmit"}, "C06": {"OnDone", "ExReturn", "BodyEnd"}, "C08": set()}
+             "C07": {"EvSet", "ExReturn", "Resubmit", "Refresh", "BodyStart"}, "C06": {"EvSet", "ExReturn", "BodyEnd", "Refresh"}, "C08": set()}
 
     def classify(trace, scen, reached):
         evs = trace["evs"]
